@@ -48,11 +48,18 @@ BADSTATE = (M.W_BADQPOS, M.W_BADQVEL, M.W_BADQACC)
 K_SLEEP = "checkVel-skips-sleeping-dofs"
 K_RK4 = "rk4-substage-unchecked"
 K_ACT = "act-never-checked"
+K_INTEG = "integrator-velocity-solve-unchecked"
+K_LU = "implicit-LU-singular-mju_error"
 WHY = {
     K_SLEEP: "mj_checkVel skips sleeping dofs: a bad qvel written into a sleeping tree is not flagged by the velocity check "
              "although the tree is woken later in the same mj_step",
     K_RK4: "RK4 sub-stages are unchecked: a non-finite acceleration that first appears in a Runge-Kutta sub-stage is "
            "integrated into qpos/qvel without warning or reset",
+    K_INTEG: "the velocity update actually integrated (Euler implicit-damping solve / implicit integrators) is recomputed "
+             "after mj_checkAcc from a separate factorisation and is not checked: an ill-conditioned legal state yields "
+             "non-finite qpos/qvel after mj_step without warning",
+    K_LU: "mju_factorLUSparse calls mju_error (fatal by default) when M - h*dqfrc/dqvel is numerically singular: a legal "
+          "but ill-conditioned state aborts mj_step with the implicit integrator instead of being contained",
     K_ACT: "act is never checked: a non-finite activation that does not reach qacc at the checked stage (disabled group, "
            "force-limited actuator) stays in / spreads from act without warning",
 }
@@ -119,6 +126,7 @@ def run_item(lib, part, ref, item, vals, sites_filter=None):
                 return "%s[%d]=%s %s autoreset=%d pre=%s" % (site, idx, label, tag, int(autoreset), pre)
 
             def viol(key, what):
+                add("violating_points|" + key)
                 if key not in seen:
                     seen.add(key)
                     part.violation(key, (WHY[key] + ": " if key in WHY else "") + what + " at " + mkpt(), mkreplay())
@@ -135,7 +143,10 @@ def run_item(lib, part, ref, item, vals, sites_filter=None):
                 lib.mj_step(m, d_e)
             except mj.MjError as e:
                 if autoreset:
-                    viol("mju_error|site=%s" % site, "mj_step raised mju_error: %s" % e)
+                    if integ == "implicit" and "diagonal element too small" in str(e) and kind == "legal":
+                        viol(K_LU, "mj_step raised mju_error: %s" % e)
+                    else:
+                        viol("mju_error|site=%s|%s" % (site, integ), "mj_step raised mju_error: %s" % e)
                 else:
                     add("mju_error_autoreset_off")
                     part["extra"]["mju_error_autoreset_off_example"] = "%s: %s" % (mkpt(), e)
@@ -229,6 +240,8 @@ def run_item(lib, part, ref, item, vals, sites_filter=None):
                         viol(K_ACT, what)
                     elif integ == "RK4" and agree and not raised_e and not nf2:
                         viol(K_RK4, what)
+                    elif agree and not raised_e and not nf2 and site != "act":
+                        viol(K_INTEG, what)
                     else:
                         viol("S1|nonfinite %s|site=%s|%s|engine=%s|%s" % (
                             "+".join(nf), site, integ, _names(raised_e), "persists" if nf2 else "contained by next step"), what)
@@ -343,11 +356,9 @@ def run(ctx):
         txt = lib.cstr(lib.mju_warningText(w, 0)) or ""
         if word not in txt:
             raise RuntimeError("warning enum layout changed: %d -> %r" % (w, txt))
-    cfgs = M.model_configs(ctx.thorough)
-    if ctx.thorough:
-        cfgs += M.tree_configs(2)
+    cfgs = M.model_configs(ctx.thorough) + M.tree_configs(ctx.thorough)
     items = [(ci, c, ar, pi, pre) for ci, c in enumerate(cfgs) for ar in (True, False) for pi, pre in enumerate(M.PRESTATES)
-             if ctx.thorough or _quick_selected(c, ar, pre)]
+             if (ctx.thorough and (c.get("kind") != "tree" or ar or pre == "warm")) or (not ctx.thorough and _quick_selected(c, ar, pre))]
     sink = _Collector(ctx)
     core.pmap(sink, _chunk, items, nchunks=len(items))
     sink.flush()
@@ -362,8 +373,9 @@ def run(ctx):
                 "executed and counted. non-trivial = points where the injected value made a BADQPOS/BADQVEL/BADQACC/BADCTRL "
                 "counter change in the engine"
                 % (len(cfgs), "; ".join(M.config_tag(c) for c in cfgs if c.get("kind") != "tree")
-                   + ("; + %d alphabet models: all forests <= 2 bodies x full joint menu, integrator/damping rotated"
-                      % sum(c.get("kind") == "tree" for c in cfgs) if ctx.thorough else ""), M.WARM_STEPS, len(items), len(cfgs) * 4,
+                   + ("; + %d alphabet models: %s" % (sum(c.get("kind") == "tree" for c in cfgs),
+                      "all forests <= 2 bodies x full joint menu x {4 integrators damped, Euler undamped} (autoreset off only from the warm "
+                      "pre-state)" if ctx.thorough else "chain ball->slide+hinge, damped, Euler and implicit")), M.WARM_STEPS, len(items), len(cfgs) * 4,
                    ", ".join(M.SITES), len(_VALS),
                    ", ".join(v[0] for v in _VALS)))
     ctx.assumptions = [
